@@ -341,7 +341,7 @@ fn run_flat_case(seed: u64, index: u64, rep: &mut Report, model: &mut crate::mod
     if n_undo > 0 { rep.nontrivial_case(&format!("c12flat:{}", index)); }
 }
 
-pub fn cases(tier: &str) -> u64 { if tier == "thorough" { 40000 } else { 3000 } }
+pub fn cases(tier: &str) -> u64 { if tier == "thorough" { 40000 } else { 15000 } }
 pub fn run_range(_tier: &str, seed: u64, lo: u64, hi: u64) -> Report {
     let trace = std::env::var("YV_TRACE").is_ok();
     let mut rep = Report::default();
